@@ -204,7 +204,7 @@ def r7(repo, res):
 
         gene = Obj(alleles={f"{j + 1}": Obj(minors={}, func_muts=set()) for j in range(6)}, random_mutations=set(), region_at=lambda p: None)
         cov_model = ClassModel(repo.cls("coverage::Coverage"), env={"Coverage": Obj(quality_filter="QUALITY")})
-        coverage = cov_model.instance(filtered=filtered, profile=Obj(cn_max=20))
+        coverage = cov_model.instance(filtered=filtered, profile=Obj(cn_max=20, threshold=0.5, min_coverage=2.0, min_quality=10, min_mapq=10), _coverage={}, _indels=None)
         try:
             fn = Lifted(em, funcs={"SolvedAllele": lambda *a: a, "functools.partial": partial, "natsorted": lambda it, key=None: sorted(it, key=key),
                                    "_print_candidates": lambda *a: None, "solve_minor_model": solve, "Mutation": lambda *a: a},
